@@ -9,6 +9,7 @@ import Liquid.Filters.Num
 import Liquid.Filters.Str
 import Liquid.Compare
 import Liquid.Rex
+import Liquid.Heap
 /-!
 # Line-protocol driver (DESIGN §5.1): one case per line in, one canonical result line out.
 -/
@@ -257,6 +258,9 @@ def runCase (line : String) : String :=
     | some (recv :: args) => ArrF.runSortc allFilterImpls (hexDecode name) recv args
     | _ => "unmodelled parse"
   | "numf" :: x :: steps => runNumfCase x steps
+  -- alias <off>:<spare> <recv> (<namehex> <arg|->)+  (C15, C03): the chain on the slice-memory model of Liquid/Heap.lean:
+  -- result, whether it lies in the receiver's backing array, which locations of the caller's arrays changed
+  | "alias" :: spec :: recv :: steps => Heap.runAlias spec recv steps
   | ["sprint", v] =>
     match GoVal.parse v with
     | some x => showBytesRes (sprint x)
